@@ -106,9 +106,14 @@ def oracle_c12(tr: Trace):
                 _check_source_cancel(tr, k, st, pf, remote)
             if st.ob["exc"] == 0 and st.ob["ret"] and tr.kind == "dest":
                 _check_dest_cancel(tr, k, st, pf, remote)
-        if tr.kind == "dest" and st.tag == 0 and st.pdu["kind"] == codec.K_EOF and st.pdu["cond"] != 0 and st.ob["exc"] == 0 \
-                and st.prev is not None and st.prev["fields"]["state"] == 1 and st.prev["fields"]["qlen"] == 0 \
-                and step_after_advancement(st.prev) in (3,) and st.prev["fields"]["file_size_eof"] < 0:
+        eof_cancel = tr.kind == "dest" and st.tag == 0 and st.pdu["kind"] == codec.K_EOF and st.pdu["cond"] != 0 and st.ob["exc"] == 0
+        busy_receiving = eof_cancel and st.prev is not None and st.prev["fields"]["state"] == 1 and st.prev["fields"]["qlen"] == 0 \
+            and step_after_advancement(st.prev) in (2, 3) and st.prev["fields"]["file_size_eof"] < 0
+        # ... or as the very first PDU of its transaction (Metadata and data lost; acknowledged mode only, an unacknowledged
+        # receiver refuses a first PDU that is not Metadata)
+        first_pdu = eof_cancel and (st.prev is None or st.prev["fields"]["state"] == 0) and st.pdu["mode"] == 0 \
+            and st.ob["fields"]["state"] == 1
+        if busy_receiving or first_pdu:
             # EOF (cancel) while still receiving: finishes with the EOF's condition, sender as fault location, incomplete
             fins = [e for e in st.ob["events"] if e[0] == 3]
             got = _drained_after(tr, k)
@@ -123,6 +128,8 @@ def oracle_c12(tr: Trace):
                 j += 1
             if tr.cfg["ind"][3] and nxt:
                 e = nxt[0]
+                if remote is None:
+                    continue
                 if (e[3], e[4], e[6]) != (st.pdu["cond"], 1, remote["id"]):
                     raise Failure(f"C12 EOF (cancel, condition {st.pdu['cond']}) finished with {e[3:7]} instead of that condition, "
                                   f"incomplete data, fault location = sender {remote['id']} (op {st.i})")
